@@ -24,7 +24,7 @@ LEVEL_TEXT = ('Proof (partial): Coq theorems that for every expression tree of t
               'for every exit-free nest of if / if-else / repeat while of any depth, the emitted JavaScript is the canonical layout of the source '
               'program (C04_statement_js, C04_structured_js_is_canonical, on top of the C03 theorem that the nest is rebuilt from the bytes). Syntactic validity against '
               'the real JavaScript grammar is decided by node on every generated program, not by a theorem.')
-LEVEL_NOTE = 'Validity rests on node + the trusted printer; inside the theorems: the expression core incl. sound / sprite / cast / field / menu / menuItem properties and chunk counts, assignments and calls, if / if-else / repeat while / counting loops / exit repeat. Script-kind wrappers (function headers, class wrappers, factories), list loops and the further expression families (system properties, chunk ranges, put/delete, tell) are covered by the token-for-token oracle and the model correspondence only.'
+LEVEL_NOTE = 'Validity rests on node + the trusted printer; inside the theorems: the expression core incl. sound / sprite / cast / field / menu / menuItem properties and chunk counts, assignments and calls, if / if-else / repeat while / counting loops / exit repeat. Script-kind wrappers (function headers, class wrappers, factories), list loops and the further expression families (system properties, chunk ranges, put/delete, tell) are covered by the token-for-token oracle and the model correspondence only. Spec tie: pp_js_q (the JavaScript the theorems name) is extracted and compared with the emitted JavaScript on every generated handler inside the fragment.'
 TECHNIQUE = 'Coq proof by induction over the expression tree and over the program structure (emitter = printer of a JS syntax tree; translation invertible; structured layout) + node syntax check + model/implementation correspondence'
 
 def hardstr_scripts():
